@@ -178,6 +178,8 @@ pub fn body_to_wire(plain: &[u8], comp_start: Option<usize>) -> Vec<u8> {
 pub struct Knobs {
     pub max_arr: u64,
     pub max_str: u64,
+    /// 0 = never; n = one in n top-level arrays gets exactly 255 or 256 elements (the limits of a u8 count), where the count field allows it
+    pub big_array_one_in: u64,
     pub size_budget: usize,
     /// force every endless u8 array / last string to this many bytes (length sweep)
     pub endless_len: Option<usize>,
@@ -190,7 +192,7 @@ pub struct Knobs {
 }
 impl Default for Knobs {
     fn default() -> Self {
-        Knobs { max_arr: 3, max_str: 12, size_budget: 2000, endless_len: None, allow_nan: false, take_optional: None, avoid_cond_flag_branches: 0 }
+        Knobs { max_arr: 3, max_str: 12, big_array_one_in: 0, size_budget: 2000, endless_len: None, allow_nan: false, take_optional: None, avoid_cond_flag_branches: 0 }
     }
 }
 
@@ -629,6 +631,9 @@ impl<'a, 'c> Enc<'a, 'c> {
 
     fn choose_len(&mut self, hard_max: u64) -> u64 {
         let max = self.k.max_arr.min(hard_max);
+        if self.k.big_array_one_in > 0 && self.depth <= 1 && !self.over_budget() && hard_max >= 255 && self.rng.chance(1, self.k.big_array_one_in) {
+            return if hard_max >= 256 && self.rng.chance(1, 2) { 256 } else { 255 };
+        }
         if self.over_budget() || self.depth > 3 {
             return self.rng.below(2).min(hard_max);
         }
